@@ -187,6 +187,22 @@ class EqGen:
             uses = [f"(ㄱㅇㄱ {X} ㄷㅎㄷ)", f"({K} ㄱㅇㄱ ㅎㄴ) ((ㅈㅈㄱ) ㅎ) ㅅㄷㅎㄷ", "(ㄱㅇㄱ)", f"(ㄱㅇㄱ {s.render(d1)} ㄴㅎㄷ)", f"({X} ㄱㅇㄱ ㄷㅎㄷ)", f"(ㄱㅇㄱ {X} {X} ㄷㅎㄹ)", f"({K} (ㄱㅇㄱ {X} ㄷㅎㄷ) ㅎㄴ) ((ㅈㅈㄱ) ㅎ) ㅅㄷㅎㄷ"]
             R.shuffle(uses); uses = uses[:R.randrange(3, 7)]
             return f"{s.render(d1)} ({call('ㅁㄹ', uses)} ㅎ) ㅎㄴ", "shared-dict"
+        if k < .985:
+            # the SAME entries inserted in a different order, with keys that are different values but collide under the host's hash (-1 / -2,
+            # 0 / 2^61-1, 0.5 / 2^60, [-1] / [-2]): the two dictionaries are equal - as operands of ㄴ, nested, as keys looked up, built, merged
+            groups = [[("int", -1), ("int", -2)], [("int", 0), ("int", MP)], [("dy", 1, 1), ("int", 2**60)], [("list", [("int", -1)]), ("list", [("int", -2)])],
+                      [("int", 1), ("int", 1 + MP)], [("float", -1), ("int", -2)], [("exc", [("int", -1)]), ("exc", [("int", -2)])]]
+            gi = R.randrange(len(groups)); ks = list(groups[gi])
+            if R.random() < .5: ks += R.choice([g_ for j_, g_ in enumerate(groups) if j_ != gi and {j_, gi} != {0, 5}])[:R.choice([1, 2])]
+            ents = [(kt, s.val_t(0)) for kt in ks]; other = list(reversed(ents))
+            if len(ents) > 2 and R.random() < .5: R.shuffle(other); other = other if other != ents else list(reversed(ents))
+            if R.random() < .15: other = other[:-1] + [(other[-1][0], s.perturb(other[-1][1]))]          # control: one value changed - usually no longer equal
+            A_, B_ = s.render(("dict", ents)), s.render(("dict", other)); c = R.random()
+            wrap = R.choice([lambda x: x, lambda x: call("ㅁㄹ", [x]), lambda x: call("ㄷㅂ", [E(3), x]), lambda x: call("ㅅㅈ", [E(1), x])])
+            if c < .4: return call("ㄴ", [wrap(A_), wrap(B_)]), "eq-reordered-dict"
+            if c < .65: return f"{wrap(A_)} {call('ㅅㅈ', [wrap(B_), E(2)])} ㅎㄴ", "lookup-reordered-dict"
+            if c < .85: return call("ㅅㅈ", [wrap(B_), E(2), wrap(A_), E(3)]), "dict-reordered-dict-keys"
+            return f"{wrap(A_)} {call('ㄷ', [call('ㅅㅈ', [wrap(B_), E(2)]), call('ㅅㅈ', [wrap(A_), E(3)])])} ㅎㄴ", "merge-reordered-dict-keys"
         return s.dic(d), "dict"
 
 def c06_eq(r, seed, tier, model_ok):
@@ -241,13 +257,34 @@ def c11_numerals(r, seed, tier, model_ok):
             pre = R.choice(["", "", {16: "0x", 8: "0o", 2: "0b"}.get(b, ""), {16: "0X", 8: "0O", 2: "0B"}.get(b, "")])
             t_ = R.choice(["", " ", "\t"]) + sign + pre + ip + R.choice(["", " ", "\n"])
             cases.append(dict(text=f"{strlit(t_)} {E(b)} ㅈㅅㅎㄷ", trace=False)); want.append(f"V {int(sign + ip, b)}"); kinds["integer"] += 1
-        elif k < .85 and (ip or fp):
+        elif k < .80 and (ip or fp):
             t_ = R.choice(["", "  "]) + sign + ip + R.choice([".", "."] if fp else ["", "."]) + fp + R.choice(["", " "])
             n_ = int(sign + (ip + fp), b); d_ = b ** len(fp)
             try: w_ = "V " + repr(float(Fraction(n_, d_)) if n_ else 0.0)
             except OverflowError: w_ = "E 5,-39"
             if b == 10: w_ = None          # base ten goes through float(): compared with the model only
             cases.append(dict(text=f"{strlit(t_)} {E(b)} ㅅㅅㅎㄷ", trace=False)); want.append(w_); kinds["real"] += 1
+        elif k < .92 and ip:
+            # underscores (single, between digits, or right after the prefix; leading / trailing / doubled ones are malformed) and base 0 (the
+            # prefix chooses the base; a decimal that starts with 0 must be zero): compared with the model only
+            def us(d_):
+                out = ""
+                for i_, ch in enumerate(d_):
+                    out += ch
+                    if i_ + 1 < len(d_) and R.random() < .3: out += "_" if R.random() < .9 else "__"
+                c_ = R.random(); return "_" + out if c_ < .06 else out + "_" if c_ < .12 else out
+            c = R.random()
+            if c < .45:
+                pre = R.choice(["", "", {16: "0x", 8: "0o", 2: "0b"}.get(b, ""), {16: "0X_", 8: "0o_", 2: "0B_"}.get(b, "")])
+                t_ = sign + pre + us(ip); fn = "ㅈㅅ"; bb = b
+            elif c < .6: t_ = sign + us(ip) + "." + us(fp) if fp else sign + us(ip); fn = "ㅅㅅ"; bb = b
+            else:
+                bb = 0; fn = R.choice(["ㅈㅅ", "ㅈㅅ", "ㅈㅅ", "ㅅㅅ"]); b0 = R.choice([2, 8, 10, 10, 10, 16]); d_ = digits(b0, R.choice([1, 1, 2, 3, 8, 20]))
+                pre = {16: R.choice(["0x", "0X", "0x_"]), 8: R.choice(["0o", "0O"]), 2: R.choice(["0b", "0B", "0b_"]), 10: R.choice(["", "", "0", "00", "0_"])}[b0]
+                t_ = sign + pre + (us(d_) if R.random() < .4 else d_) + (R.choice(["", "", ".", "." + digits(b0, 2)]) if fn == "ㅅㅅ" else "")
+                if R.random() < .1: t_ = R.choice(["0", "00", "0_0", "-0", "0x", "0b2", "0o8", "0_1", "1_0", "0x_", "_1", "1_", "0__0", "+0x_f", " 0b1 "])
+            if R.random() < .2: t_ = R.choice([" ", "\t"]) + t_ + R.choice(["", " ", "\n"])
+            cases.append(dict(text=f"{strlit(t_)} {E(bb)} {fn}ㅎㄷ", trace=False)); want.append(None); kinds["underscores-or-base-0"] += 1
         else:          # malformed or refused
             t_ = R.choice(["", ".", "-", "1.2.3", "1 .5", "1._5", ip + "." + fp + "z", "0x", "0x.8", "z" + ip, ip + " " + fp, "--1", "1e3"])
             bb = R.choice([b, b, 1, 37, -2, 40]); fn = R.choice(["ㅈㅅ", "ㅅㅅ"])
